@@ -1,4 +1,4 @@
-use crate::{LeanString, ToLeanStringError, UnwrapWithMsg, repr::Repr};
+use crate::{LeanString, ReserveError, ToLeanStringError, UnwrapWithMsg, repr::Repr};
 use alloc::string::String;
 use castaway::{LifetimeFree, match_type};
 use core::{fmt, fmt::Write, num::NonZero};
@@ -64,9 +64,27 @@ impl<T: fmt::Display> ToLeanString for T {
             &LeanString as s => return Ok(s.clone()),
 
             s => {
-                let mut buf = LeanString::new();
-                write!(buf, "{}", s)?;
-                return Ok(buf)
+                // `LeanString`'s own `fmt::Write` panics when allocation fails; this writer
+                // remembers the `ReserveError` instead, so that it can be returned.
+                struct Writer {
+                    buf: LeanString,
+                    reserve_error: Option<ReserveError>,
+                }
+                impl fmt::Write for Writer {
+                    fn write_str(&mut self, s: &str) -> fmt::Result {
+                        self.buf.try_push_str(s).map_err(|e| {
+                            self.reserve_error = Some(e);
+                            fmt::Error
+                        })
+                    }
+                }
+                let mut writer = Writer { buf: LeanString::new(), reserve_error: None };
+                let result = write!(writer, "{}", s);
+                if let Some(e) = writer.reserve_error {
+                    return Err(ToLeanStringError::Reserve(e));
+                }
+                result?;
+                return Ok(writer.buf)
             }
         });
         Ok(LeanString(repr))
